@@ -756,6 +756,48 @@ static bool vk_apply_setter(T& x, uint64_t which, std::string_view v) {
     default: return x.set_href(v);
   }
 }
+// Setter under a limit (C09 base case): the URL is parsed with no limit; the unlimited outcome of the setter is computed
+// on copies; then for L in {|before|, |unlimited result| - 1, |unlimited result|} (only L >= |before|, so that the
+// starting URL itself is one the library could have handed out under L) the setter runs under limit L on fresh copies.
+// bits (aggregator; << 4 for ada::url): 1 href longer than L ; 2 unlimited result exceeds L but the URL changed ;
+// 4 ... but a boolean setter returned true ; 8 value and unlimited result fit within L but the outcome differs
+static const uint32_t vk_default_limit = ada::get_max_input_length();
+template <class T>
+static uint64_t vk_limit_case(const T& pre, uint64_t which, std::string_view val, uint64_t L, const std::string& h0, bool r0) {
+  T x = pre;
+  std::string before(x.get_href());
+  ada::set_max_input_length(uint32_t(L));
+  bool r = vk_apply_setter(x, which, val);
+  ada::set_max_input_length(vk_default_limit);
+  std::string h(x.get_href());
+  uint64_t d = 0;
+  if (h.size() > L) d |= 1;
+  if (h0.size() > L) {
+    if (h != before) d |= 2;
+    if (r && which != 7 && which != 8) d |= 4;
+  } else if (val.size() <= L) {
+    if (h != h0 || r != r0) d |= 8;
+  }
+  return d;
+}
+VK(setter_limit) {
+  UNUSED;
+  std::string_view href(reinterpret_cast<const char*>(in), p0), val(reinterpret_cast<const char*>(in + p0), n - p0);
+  auto a = ada::parse<ada::url_aggregator>(href);
+  auto u = ada::parse<ada::url>(href);
+  if (!a || !u) return 0;
+  ada::url_aggregator a0 = *a; ada::url u0 = *u;
+  bool ra0 = vk_apply_setter(a0, p1, val), ru0 = vk_apply_setter(u0, p1, val);
+  std::string ha0(a0.get_href()), hu0 = u0.get_href();
+  uint64_t before = a->get_href().size(), d = 0;
+  uint64_t Ls[3] = {before, ha0.size() ? ha0.size() - 1 : 0, ha0.size()};
+  for (int i = 0; i < 3; i++) {
+    if (Ls[i] < before || Ls[i] == 0) continue;
+    d |= vk_limit_case(*a, p1, val, Ls[i], ha0, ra0);
+    d |= vk_limit_case(*u, p1, val, Ls[i], hu0, ru0) << 4;
+  }
+  return (1ull << 63) | d;
+}
 VK(setter_sweep) {
   UNUSED;
   std::string_view href(reinterpret_cast<const char*>(in), p0), val(reinterpret_cast<const char*>(in + p0), n - p0);
